@@ -76,6 +76,15 @@ func (h *Hash) Entries() []HashPair {
 
 // Inspect returns a string-representation of the given object.
 func (h *Hash) Inspect() string {
+	return h.inspect(0)
+}
+
+// inspect is the implementation of Inspect, for a hash which is the given
+// number of containers deep.
+func (h *Hash) inspect(depth int) string {
+	if depth > maxNesting {
+		return "{...}"
+	}
 
 	// Get the list of entries, sorted by key-name.
 	entries := h.Entries()
@@ -86,7 +95,7 @@ func (h *Hash) Inspect() string {
 	pairs := make([]string, 0)
 	for _, entry := range entries {
 		pairs = append(pairs, fmt.Sprintf("%s: %s",
-			entry.Key.Inspect(), entry.Value.Inspect()))
+			entry.Key.Inspect(), inspectNested(entry.Value, depth+1)))
 	}
 	out.WriteString("{")
 	out.WriteString(strings.Join(pairs, ", "))
